@@ -122,6 +122,12 @@ class User(callbacks.Plugin):
             irc.errorInvalid(_('username'), name,
                              _('Hostmasks are not valid usernames.'),
                              Raise=True)
+        if '\n' in name or '\r' in name:
+            # users.conf is line-oriented: a line break in a name would be
+            # read back as extra lines of the user's record.
+            irc.errorInvalid(_('username'), name,
+                             _('Usernames cannot contain line breaks.'),
+                             Raise=True)
         try:
             u = ircdb.users.getUser(msg.prefix)
             if u._checkCapability('owner'):
@@ -184,6 +190,10 @@ class User(callbacks.Plugin):
             return
         except KeyError:
             pass
+        if '\n' in newname or '\r' in newname:
+            irc.errorInvalid(_('username'), newname,
+                             _('Usernames cannot contain line breaks.'),
+                             Raise=True)
         if user.checkHostmask(msg.prefix) or user.checkPassword(password):
             user.name = newname
             ircdb.users.setUser(user)
